@@ -257,8 +257,13 @@ func init() {
 			if f >= len(format) || format[f] != 'd' {
 				i.ps.unsupported("fmt.Sscanf model: only %%d is supported (format %q)", format)
 			}
+			if n >= len(dests) {
+				return fail("too few operands for format '%d'")
+			}
+			dk := basicKindOf(dests[n].(iface).t.Underlying().(*types.Pointer).Elem().Underlying())
+			unsigned := dk == types.Uint || dk == types.Uint8 || dk == types.Uint16 || dk == types.Uint32 || dk == types.Uint64 || dk == types.Uintptr
 			start := p
-			if p < len(in) && (in[p] == '-' || in[p] == '+') {
+			if !unsigned && p < len(in) && (in[p] == '-' || in[p] == '+') { // fmt accepts no sign for unsigned operands
 				p++
 			}
 			ds := p
@@ -271,19 +276,19 @@ func init() {
 				}
 				return fail("expected integer")
 			}
-			v, err := strconv.ParseInt(in[start:p], 10, 64)
 			var u uint64
-			if err != nil {
+			if unsigned {
 				u2, err2 := strconv.ParseUint(in[start:p], 10, 64)
 				if err2 != nil {
-					return fail("integer overflow")
+					return fail("unsigned integer overflow")
 				}
 				u = u2
 			} else {
+				v, err := strconv.ParseInt(in[start:p], 10, 64)
+				if err != nil {
+					return fail("integer overflow")
+				}
 				u = uint64(v)
-			}
-			if n >= len(dests) {
-				return fail("too few operands for format '%d'")
 			}
 			d := dests[n].(iface)
 			ptr := d.v.(*value)
